@@ -24,6 +24,7 @@ import (
 	"os"
 	"path"
 	"path/filepath"
+	"sort"
 	"strings"
 
 	"github.com/pkg/errors"
@@ -135,7 +136,15 @@ func (cfg *Configuration) renderResources(ch *chart.Chart, values chartutil.Valu
 	// look for terminating NOTES.txt. We also remove it from the files so that we don't have to skip
 	// it in the sortHooks.
 	var notesBuffer bytes.Buffer
-	for k, v := range files {
+	// Iterate in a fixed order: with subNotes the notes of several charts are
+	// concatenated, and map iteration order would make the result vary.
+	fileNames := make([]string, 0, len(files))
+	for k := range files {
+		fileNames = append(fileNames, k)
+	}
+	sort.Strings(fileNames)
+	for _, k := range fileNames {
+		v := files[k]
 		if strings.HasSuffix(k, notesFileSuffix) {
 			if subNotes || (k == path.Join(ch.Name(), "templates", notesFileSuffix)) {
 				// If buffer contains data, add newline before adding more
